@@ -104,7 +104,21 @@ impl Sock {
     }
 }
 
+/// Socket kind "turn": the agent's only local candidate is a relay candidate allocated on a fake TURN server run
+/// by the harness; P and X are (fictitious) peer addresses behind the relay. A packet reaches the agent wrapped in a
+/// Data indication, as ChannelData on the channel the agent bound for its source, or bare on the TURN client's 5-tuple.
+struct TurnRig {
+    srv: UdpSocket,
+    stranger: UdpSocket,
+    client: SocketAddr,
+    relayed: SocketAddr,
+    chan_of: HashMap<SocketAddr, u16>,
+}
+
 struct World {
+    turn: Option<TurnRig>,
+    /// how the next packet is delivered ("direct" | "data" | "chan" | "bare_srv" | "bare_x")
+    via: String,
     agent: IceTransport,
     runner: tokio::task::JoinHandle<()>,
     agent_addr: SocketAddr,
@@ -148,11 +162,19 @@ impl World {
         c.nomination_timeout = Duration::from_secs(3300);
         c.ice_disconnect_threshold = Duration::from_secs(3000);
         c.ice_connection_timeout = Duration::from_secs(3600);
+        let mut turn_srv: Option<UdpSocket> = None;
         match cfg["sock"].as_str().unwrap() {
             "udp" => {}
             "tcp" => {
                 // gathers a passive TCP host candidate next to the UDP one
                 c.ice_tcp_policy = rustrtc::config::IceTcpPolicy::Enabled;
+            }
+            "turn" => {
+                let srv = UdpSocket::bind("127.0.0.1:0").await.map_err(|e| e.to_string())?;
+                let url = format!("turn:127.0.0.1:{}", srv.local_addr().unwrap().port());
+                c.ice_transport_policy = rustrtc::config::IceTransportPolicy::Relay;
+                c.ice_servers = vec![rustrtc::config::IceServer::new(vec![url]).with_credential("turnuser", "turnpass")];
+                turn_srv = Some(srv);
             }
             "tcpmux" => {
                 // start == end: the process-wide shared listener, connections demultiplexed by the ufrag in the
@@ -177,6 +199,51 @@ impl World {
         let runner = tokio::spawn(runner);
         let mut g = agent.subscribe_gathering_state();
         let t0 = Instant::now();
+        let mut turn: Option<TurnRig> = None;
+        if let Some(srv) = turn_srv.take() {
+            // the Allocate exchange: 401 challenge, then success with a (fictitious) relayed address
+            let relayed: SocketAddr = format!("127.0.0.1:{}", 20000 + (rng.clone().next() % 9000)).parse().unwrap();
+            let mut client = None;
+            let mut buf = [0u8; 2048];
+            let mut n_alloc = 0;
+            while n_alloc < 2 {
+                let (n, from) = tokio::time::timeout(Duration::from_secs(10), srv.recv_from(&mut buf))
+                    .await
+                    .map_err(|_| "no Allocate request from the agent".to_string())?
+                    .map_err(|e| e.to_string())?;
+                let mut q = Message::new();
+                if q.unmarshal_binary(&buf[..n]).is_err() || q.typ.method != stun::message::METHOD_ALLOCATE {
+                    continue;
+                }
+                client = Some(from);
+                let mut r = Message::new();
+                r.transaction_id = q.transaction_id;
+                if n_alloc == 0 {
+                    r.typ = MessageType::new(stun::message::METHOD_ALLOCATE, CLASS_ERROR_RESPONSE);
+                    r.write_header();
+                    r.add(ATTR_ERROR_CODE, &[0, 0, 4, 1, b'x']);
+                    r.add(ATTR_REALM, b"harness.example");
+                    r.add(ATTR_NONCE, b"nonce-0123456789");
+                } else {
+                    use stun::message::Setter;
+                    r.typ = MessageType::new(stun::message::METHOD_ALLOCATE, CLASS_SUCCESS_RESPONSE);
+                    r.write_header();
+                    stun::xoraddr::XorMappedAddress { ip: relayed.ip(), port: relayed.port() }
+                        .add_to_as(&mut r, ATTR_XOR_RELAYED_ADDRESS)
+                        .unwrap();
+                    r.add(ATTR_LIFETIME, &600u32.to_be_bytes());
+                }
+                let _ = srv.send_to(&r.raw, from).await;
+                n_alloc += 1;
+            }
+            turn = Some(TurnRig {
+                srv,
+                stranger: UdpSocket::bind("127.0.0.1:0").await.map_err(|e| e.to_string())?,
+                client: client.unwrap(),
+                relayed,
+                chan_of: HashMap::new(),
+            });
+        }
         loop {
             if *g.borrow_and_update() == rustrtc::transports::ice::IceGathererState::Complete {
                 break;
@@ -192,10 +259,25 @@ impl World {
             .find(|c| c.transport == if tcp { "tcp" } else { "udp" })
             .ok_or_else(|| format!("no suitable host candidate: {locals:?}"))?;
         let agent_addr = host.base_address();
+        if let Some(t) = &turn {
+            if host.address != t.relayed {
+                return Err(format!("the relay candidate is not the relayed address: {locals:?}"));
+            }
+        }
         let lp = agent.local_parameters();
         let mut socks = HashMap::new();
         let mut addrs = HashMap::new();
+        if let Some(t) = &turn {
+            // fictitious peers behind the relay; "R" is the agent's own relayed address
+            let base = 30000 + (rng.clone().next() % 9000) as u16;
+            addrs.insert("P", format!("127.0.0.1:{}", base).parse().unwrap());
+            addrs.insert("X", format!("127.0.0.1:{}", base + 1).parse().unwrap());
+            addrs.insert("R", t.relayed);
+        }
         for n in ["P", "X"] {
+            if turn.is_some() {
+                continue;
+            }
             if tcp {
                 let s = tokio::net::TcpStream::connect(agent_addr).await.map_err(|e| e.to_string())?;
                 s.set_nodelay(true).ok();
@@ -214,6 +296,8 @@ impl World {
             ufrag: lp.username_fragment,
             pwd: lp.password,
             role,
+            turn,
+            via: "direct".into(),
             socks,
             tcp,
             tcpmux: cfg["sock"] == "tcpmux",
@@ -298,42 +382,113 @@ impl World {
 
     /// Read everything queued on the harness sockets: requests the agent sent (learn their
     /// transaction ids) and replies to our own requests (returned by transaction id).
+    /// one STUN message the agent sent towards harness endpoint `n`
+    fn classify(&mut self, pkt: &[u8], n: &'static str, replies: &mut HashMap<[u8; 12], String>) {
+        let buf = pkt;
+        let len = pkt.len();
+        let problems = self.check_agent_wire(buf, n);
+        self.wire_checked += 1;
+        if !problems.is_empty() && self.wire_problems.len() < 20 {
+            let head: String = buf.iter().take(48).map(|b| format!("{b:02x}")).collect();
+            self.wire_problems.push(json!({"to": n, "len": len, "problems": problems, "head": head}));
+        }
+        let Ok(d) = StunMessage::decode(&buf[..len]) else { return };
+        match d.class {
+            StunClass::Request => {
+                let mut m = Message::new();
+                let check = m.unmarshal_binary(&buf[..len]).is_ok()
+                    && (m.contains(ATTR_ICE_CONTROLLING) || m.contains(ATTR_ICE_CONTROLLED));
+                self.seen.entry(d.transaction_id).or_insert(Captured { dst: n.to_string(), uc: d.use_candidate, check });
+            }
+            StunClass::SuccessResponse => {
+                replies.insert(d.transaction_id, "success".to_string());
+                self.replies.insert(d.transaction_id, "success".to_string());
+            }
+            StunClass::ErrorResponse => {
+                replies.insert(d.transaction_id, "error".to_string());
+                self.replies.insert(d.transaction_id, "error".to_string());
+            }
+            _ => {}
+        }
+    }
+
+    /// the fake TURN server's side: answers the client's TURN requests (success) and unwraps what the agent relays
+    fn drain_turn(&mut self, replies: &mut HashMap<[u8; 12], String>) {
+        let mut buf = [0u8; 4096];
+        loop {
+            let Some(t) = self.turn.as_mut() else { return };
+            let (n, from) = match t.srv.try_recv_from(&mut buf) {
+                Ok(v) => v,
+                Err(_) => return,
+            };
+            if from != t.client {
+                continue;
+            }
+            let pkt = buf[..n].to_vec();
+            let (peer, inner): (SocketAddr, Vec<u8>) = if (0x40..0x80).contains(&pkt[0]) && pkt.len() >= 4 {
+                let ch = u16::from_be_bytes([pkt[0], pkt[1]]);
+                let l = u16::from_be_bytes([pkt[2], pkt[3]]) as usize;
+                let Some((p, _)) = t.chan_of.iter().find(|(_, c)| **c == ch) else { continue };
+                (*p, pkt[4..(4 + l).min(pkt.len())].to_vec())
+            } else {
+                let mut m = Message::new();
+                if m.unmarshal_binary(&pkt).is_err() {
+                    continue;
+                }
+                if m.typ.class == CLASS_REQUEST {
+                    // TURN control plane: always granted
+                    use stun::message::Getter;
+                    self.seen.entry(m.transaction_id.0).or_insert(Captured { dst: "srv".into(), uc: false, check: false });
+                    if m.typ.method == stun::message::METHOD_CHANNEL_BIND {
+                        let mut x = stun::xoraddr::XorMappedAddress::default();
+                        if let (Ok(()), Ok(v)) = (x.get_from_as(&m, ATTR_XOR_PEER_ADDRESS), m.get(ATTR_CHANNEL_NUMBER)) {
+                            if v.len() >= 2 {
+                                t.chan_of.insert(SocketAddr::new(x.ip, x.port), u16::from_be_bytes([v[0], v[1]]));
+                            }
+                        }
+                    }
+                    let mut r = Message::new();
+                    r.typ = MessageType::new(m.typ.method, CLASS_SUCCESS_RESPONSE);
+                    r.transaction_id = m.transaction_id;
+                    r.write_header();
+                    if m.typ.method == stun::message::METHOD_REFRESH {
+                        r.add(ATTR_LIFETIME, &600u32.to_be_bytes());
+                    }
+                    let _ = t.srv.try_send_to(&r.raw, t.client);
+                    continue;
+                }
+                if m.typ.method != stun::message::METHOD_SEND {
+                    continue;
+                }
+                use stun::message::Getter;
+                let mut x = stun::xoraddr::XorMappedAddress::default();
+                let (Ok(()), Ok(d)) = (x.get_from_as(&m, ATTR_XOR_PEER_ADDRESS), m.get(ATTR_DATA)) else { continue };
+                (SocketAddr::new(x.ip, x.port), d)
+            };
+            let name: &'static str = if peer == self.addrs["P"] {
+                "P"
+            } else if peer == self.addrs["X"] {
+                "X"
+            } else {
+                "R"
+            };
+            if inner.first().map(|b| *b < 2).unwrap_or(false) {
+                self.classify(&inner, name, replies);
+            }
+        }
+    }
+
     fn drain(&mut self) -> HashMap<[u8; 12], String> {
         let mut replies = HashMap::new();
+        if self.turn.is_some() {
+            self.drain_turn(&mut replies);
+            return replies;
+        }
         for n in ["P", "X"] {
             loop {
                 let agent = Some(self.agent_addr);
                 let Some(pkt) = self.socks.get_mut(n).unwrap().try_next(agent) else { break };
-                let buf = &pkt[..];
-                let len = pkt.len();
-                let problems = self.check_agent_wire(buf, n);
-                self.wire_checked += 1;
-                if !problems.is_empty() && self.wire_problems.len() < 20 {
-                    let head: String = buf.iter().take(48).map(|b| format!("{b:02x}")).collect();
-                    self.wire_problems.push(json!({"to": n, "len": len, "problems": problems, "head": head}));
-                }
-                let Ok(d) = StunMessage::decode(&buf[..len]) else { continue };
-                match d.class {
-                    StunClass::Request => {
-                        let mut m = Message::new();
-                        let check = m.unmarshal_binary(&buf[..len]).is_ok()
-                            && (m.contains(ATTR_ICE_CONTROLLING) || m.contains(ATTR_ICE_CONTROLLED));
-                        self.seen.entry(d.transaction_id).or_insert(Captured {
-                            dst: n.to_string(),
-                            uc: d.use_candidate,
-                            check,
-                        });
-                    }
-                    StunClass::SuccessResponse => {
-                        replies.insert(d.transaction_id, "success".to_string());
-                        self.replies.insert(d.transaction_id, "success".to_string());
-                    }
-                    StunClass::ErrorResponse => {
-                        replies.insert(d.transaction_id, "error".to_string());
-                        self.replies.insert(d.transaction_id, "error".to_string());
-                    }
-                    _ => {}
-                }
+                self.classify(&pkt, n, &mut replies);
             }
         }
         replies
@@ -446,7 +601,12 @@ impl World {
         let from: &'static str = if from == "P" { "P" } else { "X" };
         self.ensure_connected(from).await?;
         let h = rustrtc::verif::hash32(bytes);
-        let me = self.addrs[from].to_string();
+        // through the relay a wrapped packet is dispatched with its peer's address, a bare one with the agent's own
+        // relayed address
+        let me = match (&self.turn, self.via.as_str()) {
+            (Some(t), "bare_srv") | (Some(t), "bare_x") => t.relayed.to_string(),
+            _ => self.addrs[from].to_string(),
+        };
         let mut txid = [0u8; 12];
         txid.copy_from_slice(&bytes[8..20]);
         let t0 = Instant::now();
@@ -459,7 +619,36 @@ impl World {
             if last_send.map(|t| t.elapsed() > Duration::from_secs(3)).unwrap_or(true) {
                 let to = self.agent_addr;
                 // (a TCP stream loses nothing: one transmission only)
-                if !(self.tcp && last_send.is_some()) {
+                if let Some(t) = &self.turn {
+                    let peer = self.addrs[from];
+                    let wire: Vec<u8> = match self.via.as_str() {
+                        "data" => {
+                            use stun::message::Setter;
+                            let mut d = Message::new();
+                            d.typ = MessageType::new(stun::message::METHOD_DATA, stun::message::CLASS_INDICATION);
+                            d.transaction_id = stun::agent::TransactionId([7u8; 12]);
+                            d.write_header();
+                            stun::xoraddr::XorMappedAddress { ip: peer.ip(), port: peer.port() }
+                                .add_to_as(&mut d, ATTR_XOR_PEER_ADDRESS)
+                                .unwrap();
+                            d.add(ATTR_DATA, bytes);
+                            d.raw.clone()
+                        }
+                        "chan" => {
+                            let Some(ch) = t.chan_of.get(&peer) else {
+                                return Err(format!("no outstanding transaction: no channel is bound for {from}"));
+                            };
+                            let mut b = ch.to_be_bytes().to_vec();
+                            b.extend_from_slice(&(bytes.len() as u16).to_be_bytes());
+                            b.extend_from_slice(bytes);
+                            b
+                        }
+                        _ => bytes.to_vec(), // bare on the TURN client's 5-tuple
+                    };
+                    let sock = if self.via == "bare_x" { &t.stranger } else { &t.srv };
+                    sock.send_to(&wire, t.client).await.map_err(|e| e.to_string())?;
+                    self.n_sent += 1;
+                } else if !(self.tcp && last_send.is_some()) {
                     if let Err(e) = self.socks.get_mut(from).unwrap().send(bytes, to).await {
                         if self.tcpmux {
                             return Ok(false); // the listener had already reset the connection
@@ -797,6 +986,7 @@ async fn apply(w: &mut World, act: &Value, both: bool, pick: Builder) -> Result<
                 .map_err(|e| e.to_string())?;
         }
         "request" => {
+            w.via = act["via"].as_str().unwrap_or("direct").to_string();
             let from = act["src"].as_str().unwrap().to_string();
             let list = if both { vec![Builder::Repo, Builder::StunCrate] } else { vec![pick] };
             for b in list {
@@ -819,6 +1009,7 @@ async fn apply(w: &mut World, act: &Value, both: bool, pick: Builder) -> Result<
             }
         }
         "response" => {
+            w.via = act["via"].as_str().unwrap_or("direct").to_string();
             let from = act["src"].as_str().unwrap().to_string();
             let class = act["class"].as_str().unwrap().to_string();
             let list = if both { vec![Builder::Repo, Builder::StunCrate] } else { vec![pick] };
@@ -860,6 +1051,7 @@ fn sig_of(edge: &Value) -> Value {
         "mi": a.get("mi").cloned().unwrap_or(Value::Null),
         "user": a.get("user").cloned().unwrap_or(Value::Null),
         "useCandidate": a.get("uc").cloned().unwrap_or(Value::Null),
+        "via": a.get("via").cloned().unwrap_or(Value::Null),
         "role": edge["cfg"]["role"],
     })
 }
